@@ -130,8 +130,8 @@ PROP_TWINS = {
     'C04': ['ef_dict', 'ef_big'],
     'C08': ['vfilter'],
     'C05': ['bfv_misc'],
-    'C10': ['bfv_misc', 'bfv_apply'],
-    'C14': ['bfv_misc', 'bfv_apply'],
+    'C10': ['bfv_chunks', 'bfv_apply'],
+    'C14': ['bfv_chunks', 'bfv_apply'],
 }
 
 
